@@ -2,6 +2,10 @@
 """Regenerates /verif/MANIFEST.json from the table below (kept in one place so it stays valid)."""
 import json, os
 CHECKS = {
+ "C04": dict(level="exploration", engine="U",
+   text="Exhaustive small-scope enumeration: every spec of U_2 (~600 schemas: all leaf kinds x bound presence combinations, lists, maps, map-based and struct-mapped objects, typed enums, one-ofs, scopes with (recursive) references, containers of those) x {its own boundary/representation value set; a valid value with each of ~55 hostile values (nil, typed nils, named scalars, byte strings, CBOR tags, big numbers, typed maps/slices, non-string and NaN keys, extreme numbers, nesting depth 1000) at every value and key position; the native value likewise} x {Unserialize, data-mode ValidateCompatibility, Validate, Serialize}; each call must return - a panic is caught per case, a fatal runtime error or hang kills the supervised worker and is attributed to the case in flight.",
+   note="Trusted: the enumerators in harness/ukit; single substitution per value; panics are identified by (function of the SDK on the stack, message class).",
+   technique="exhaustive enumeration of a bounded (schema, operation, value) space with per-case panic capture and supervised workers (bounded exhaustive exploration of input shapes)", design="DESIGN.md §6, §7 C04"),
  "C05": dict(level="model_checking", engine="S",
    text="The real client against the real RunATPServer (and a v1 peer answering with the real CallStep) for 11-14 sessions (1-3 Executes serial/concurrent, valid / schema-rejected / unknown-step input, a signal, pipe and buffered-stream transports with read fragmentation): every schedule within the delay bound and every fragmentation within the deviation bound is executed and each Execute must return exactly the (output id, CBOR-normalised data) that CallStep returns in-process for its own input; rejected input must come back as that call's error.",
    note="Trusted: scheduler shim, rewriter; expected values come from the repository's own CallStep in-process; payload variety is C01's job.",
